@@ -270,6 +270,14 @@ def l4(ctx, rep, only_functions=None, rule='L4.empty'):
             continue
         status, why = coverage(prog, fn, st, target, shape)
         tname = short(target) if target is not None else '?'
+        if status == 'uncovered' and isinstance(target, ast.Attribute) and is_self_attr(target, fn.self_name) and fn.cls is not None:
+            # a buffer held on self may be filled by a private helper of the class (called after the allocation)
+            from ..idioms import private_closure
+            helpers = [g for g in private_closure(ctx, fn, fn.cls) if g is not fn]
+            fills = [x for g in helpers for x in walk_no_nested(g.node) if isinstance(x, ast.Subscript) and isinstance(x.ctx, ast.Store)
+                     and is_self_attr(x.value, g.self_name, target.attr)]
+            if fills:
+                status, why = 'unknown', f'self.{target.attr} is filled by a helper ({len(fills)} element store(s)): its coverage is not derived'
         if status == 'covered':
             rep.ok(rule, fn, st, why, construct=f'{tname} = np.empty')
         elif status == 'enumerate' and (fn.short, tname) in L4_ENUMERATE_TRIAGE:
